@@ -136,7 +136,8 @@ pub trait TypeOps {
     fn store(&self, i: usize, path: &str) -> Out<()>;
     /// Load with loader 0 load_full / 1 load_mem / 2 load_mmap / 3 mmap, then apply the
     /// history `steps` (0 move, 1 box/unbox, 2 swap with a second load, 3 thread round trip,
-    /// 4 Arc share with a reader thread, 5 channel round trip), observing after every step.
+    /// 4 Arc share with a reader thread, 5 channel round trip), observing after every step
+    /// (`[255]`: load and drop without observing).
     fn load_history(&self, loader: u8, path: &str, flags: u32, steps: &[u8]) -> Out<Vec<LoadObs>>;
 }
 
@@ -319,6 +320,11 @@ where
         };
         out3(guarded(|| -> Result<Vec<LoadObs>, String> {
             let mut c = load().map_err(|e| anyhow_kind(&e))?;
+            // `[255]`: load and drop only. Used on corrupt and truncated files, where the two
+            // zero-extending loaders may legitimately succeed with bytes that are not a valid
+            // value of the type (a zero discriminant of `enum { A = 3, .. }`): looking at such a
+            // value would be the harness's own undefined behaviour.
+            if steps == [255] { drop(c); return Ok(vec![]); }
             let mut obs = vec![observe(&c)];
             for st in steps {
                 match st {
